@@ -35,7 +35,8 @@ FACTMAP = {
     "C18": ["body_Program_handleSignals", "body_Program_handleResize", "body_Program_listenForResize", "body_Program_checkResize",
             "body_Program_initInput",   # ttyOutput (whether size reporting exists at all) is decided there
             "el_case_windowSizeMsg", "order_Program_ReleaseTerminal", "order_Program_RestoreTerminal", "order_Program_Run"],
-    "C19": ["body_WithFPS", "calls", "body_standardRenderer_listen", "body_standardRenderer_start", "body_standardRenderer_halt", "locks"],
+    "C19": ["body_standardRenderer_write",   # C19_write_silent: a write only fills the buffer
+            "body_WithFPS", "calls", "body_standardRenderer_listen", "body_standardRenderer_start", "body_standardRenderer_halt", "locks"],
     "C20": ["body_Every", "body_Tick"],
     "C09": ["bufsize"],
     "C15": ["bufsize"],
